@@ -372,9 +372,12 @@ func callSSA(i *interpreter, caller *frame, callpos token.Pos, fn *ssa.Function,
 		i.shared.buildPkg(o.Pkg)
 	}
 	if fn.Blocks == nil {
-		{
-			panic(unsupported("no code for function: " + name))
+		if os.Getenv("SYMGO_DEBUG") != "" {
+			for c := caller; c != nil; c = c.caller {
+				fmt.Fprintf(os.Stderr, "  no-code stack: %s\n", c.fn)
+			}
 		}
+		panic(unsupported("no code for function: " + name))
 	}
 	if i.ps != nil {
 		if fn.Pkg != nil {
